@@ -11,6 +11,12 @@
 //	C  key store: EncryptKey/DecryptKey (and the real HSM on disk) return the key only for
 //	   the exact password, the decrypted key signs identically, and the stored blob is
 //	   decrypted independently (scrypt + SHA3 MAC + AES-CTR) to the same key.
+//	D  key store operation histories (hsmhist.go).
+//	E  scalar boundary cases (boundary.go): hand-built keys over every combination of bits
+//	   252..255 x head-room field x fill x low byte, their children, and the trees below
+//	   seeds / hardened selectors found by a bounded ordered search whose scalar has bits
+//	   233..252 all set (derived keys that carry into bit 253); XPub, ExpandedPrivateKey,
+//	   Public, the three signers and the key store against the references.
 package main
 
 import (
@@ -79,7 +85,35 @@ func ptAdd(p, q pt) pt {
 	return pt{X3, Y3, Z3}
 }
 
+// scalarBase is [k]B: the sum of the precomputed [2^i]B for the set bits of k (table built
+// once by repeated doubling with the same addition law; anchored against the plain
+// double-and-add ladder and the RFC 8032 vectors in main).
+var (
+	baseTableOnce sync.Once
+	baseTable     []pt
+)
+
 func scalarBase(k *big.Int) pt {
+	baseTableOnce.Do(func() {
+		p := pt{baseX, baseY, big.NewInt(1)}
+		for i := 0; i < 256; i++ {
+			baseTable = append(baseTable, p)
+			p = ptAdd(p, p)
+		}
+	})
+	if k.Sign() < 0 || k.BitLen() > len(baseTable) {
+		return scalarBaseLadder(k)
+	}
+	acc := pt{big.NewInt(0), big.NewInt(1), big.NewInt(1)}
+	for i := 0; i < k.BitLen(); i++ {
+		if k.Bit(i) == 1 {
+			acc = ptAdd(acc, baseTable[i])
+		}
+	}
+	return acc
+}
+
+func scalarBaseLadder(k *big.Int) pt {
 	acc := pt{big.NewInt(0), big.NewInt(1), big.NewInt(1)}
 	base := pt{baseX, baseY, big.NewInt(1)}
 	for i := k.BitLen() - 1; i >= 0; i-- {
@@ -784,6 +818,13 @@ func main() {
 		}
 	}
 
+	for _, h := range []string{"00", "01", "08", "ffffffffffffffffffffffffffffffffffffffffffffffffffffffffffffffff", "f8ffffffffffffffffffffffffffffffffffffffffffffffffffffffffffff7f", "a5a5a5a5a5a5a5a5a5a5a5a5a5a5a5a5a5a5a5a5a5a5a5a5a5a5a5a5a5a5a565"} {
+		b, _ := hex.DecodeString(h)
+		if x, y := scalarBase(leInt(b)).encode(), scalarBaseLadder(leInt(b)).encode(); x != y {
+			ev.Fatal("independent curve arithmetic: table and ladder disagree for scalar %s: %x / %x", h, x[:], y[:])
+		}
+	}
+
 	selA, selB, selC := []byte{}, []byte{0x01}, bytes.Repeat([]byte{0xff}, 32)
 	depth := run.Pick(4, 5)
 	alphabet := func(d int, allNon bool) []step {
@@ -842,13 +883,19 @@ func main() {
 		}
 		ksKeys = append(ksKeys, keyRec{sd.name + "/ks", p, p.XPub()})
 	}
-	wg.Add(3)
+	wg.Add(4)
+	var bndInfo map[string]interface{}
+	go func() {
+		defer wg.Done()
+		bndInfo = sectionBoundary(a, run.Thorough(), [][]byte{selA, selB, selC}, selB)
+	}()
 	go func() { defer wg.Done(); la := newAcc(); sectionKeystore(la, ksKeys, run.Thorough()); a.merge(la) }()
 	go func() { defer wg.Done(); la := newAcc(); sectionHSM(la, run.Thorough()); a.merge(la) }()
 	var histWorlds map[string]interface{}
 	go func() { defer wg.Done(); histWorlds = sectionHSMHistories(a, run.Thorough(), 8) }()
 	wg.Wait()
 	run.Set("hsm_history_worlds", histWorlds)
+	run.Set("scalar_boundary_section", bndInfo)
 
 	var keys []keyRec
 	for _, sd := range seeds() {
@@ -887,14 +934,16 @@ func main() {
 	if run.Thorough() {
 		run.Set("non_hardened_two_selector_depth", deepDepth)
 	}
-	run.Set("rule", "cases: derivation nodes = (seed, path) for every path up to mixed_path_depth over the step alphabet {3 selectors (empty, 01, 32 x ff) x non-hardened} + hardened steps (quick: one hardened selector, thorough: all three; thorough additionally every non-hardened path up to depth 8 over two selectors); signature cases = (key, message, other key | other message | flipped bit); key store cases = (key, password, attempted password); key store histories = every operation sequence of length 1..depth over the alphabets listed in hsm_history_worlds (XSign, LoadChainKDKey, ResetPassword, XDelete, ImportKeyFromMnemonic with each of two passwords, re-opening the directory with a new HSM; one key found on disk / one key imported on the instance under test / two keys with different passwords), each executed from scratch on a real HSM over a real directory beside the model (key present?, current password), one evaluation per operation verdict plus one closing comparison of the directory and ListKeys with the model. Non-trivial = histories containing an operation whose required verdict differs from the one the same call would get in the initial state (a password change, deletion or re-import happened before it), all-non-hardened paths of depth >= 2 whose whole-path commutation xprv.Derive(p).XPub() == xprv.XPub().Derive(p) was evaluated (the scalar addition acts on an already derived scalar), every single-bit-flipped message, every wrong-password attempt.")
+	run.Set("rule", "cases: derivation nodes = (seed, path) for every path up to mixed_path_depth over the step alphabet {3 selectors (empty, 01, 32 x ff) x non-hardened} + hardened steps (quick: one hardened selector, thorough: all three; thorough additionally every non-hardened path up to depth 8 over two selectors); signature cases = (key, message, other key | other message | flipped bit); key store cases = (key, password, attempted password); key store histories = every operation sequence of length 1..depth over the alphabets listed in hsm_history_worlds (XSign, LoadChainKDKey, ResetPassword, XDelete, ImportKeyFromMnemonic with each of two passwords, re-opening the directory with a new HSM; one key found on disk / one key imported on the instance under test / two keys with different passwords), each executed from scratch on a real HSM over a real directory beside the model (key present?, current password), one evaluation per operation verdict plus one closing comparison of the directory and ListKeys with the model; scalar boundary cases (scalar_boundary_section) = hand-built xprvs for every combination of scalar bits 252..255 x {bits 233..251 all clear, all set} x fill of bits 8..232 (00, ff; thorough also a5, 80, 7f) x low byte {00, 08, f8, 01, 07, ff}, each with its non-hardened children over the 3 selectors and one hardened child (real Child code; children of keys with bits 233..252 set carry into the next bit), plus every path up to boundary_tree_depth over {3 non-hardened selectors, 1 hardened} below the first 1 (thorough 3) seeds 'verif-C28-boundary-root-'||counter and below the first 1 (3) hardened children 'verif-C28-boundary-hardened-'||counter of the root of seed 'seed' whose scalar has bits 233..252 all set (counters searched in increasing order in complete rounds of 2^18, bound 2^25; about half of the non-hardened children of such a key carry into bit 253): per key XPub() and ExpandedPrivateKey().Public() against the independent scalar multiplication and each other, the expanded key bytes, XPrv.Sign = Ed25519InnerSign(expanded) = expanded.Sign = independent RFC 8032 signer (quick: hardened children of hand-built keys without the reference signer), verification under the own xpub, refusal for another message and under the keys of the scalars with one of bits 252..254 flipped; the boundary roots stored in a key file and signed for through HSM.XSign along every non-hardened path of depth <= 2. Scalars >= 2^255 (hand-built only) and the scalar 0 are outside the key domain: only Public() == XPub() is demanded there, the rest is recorded as observation classes. Non-trivial = boundary keys below 2^255 (the whole oracle is evaluated on them), = histories containing an operation whose required verdict differs from the one the same call would get in the initial state (a password change, deletion or re-import happened before it), all-non-hardened paths of depth >= 2 whose whole-path commutation xprv.Derive(p).XPub() == xprv.XPub().Derive(p) was evaluated (the scalar addition acts on an already derived scalar), every single-bit-flipped message, every wrong-password attempt.")
 	run.Sample(map[string]string{"seed": "32 zero bytes", "path": "N:/N:01/N:ff..ff/H:01", "check": "xprv, xpub against big.Int reference; public derivation of each N step"})
 	run.Sample(map[string]string{"seed": "ascii 'seed'", "path": "N:01/N:ff..ff", "check": "xprv.Derive(p).XPub() == xprv.XPub().Derive(p)"})
 	run.Sample(map[string]string{"sign": "root of seed ff32, 1 KiB message", "check": "equal to RFC 8032 reference signer; 8192 single-bit flips rejected"})
 	run.Sample(map[string]string{"keystore": "password 'a' vs attempts 'a ', ' a', 'a\\x00', 'A', 'aa', ''", "required": "could not decrypt"})
 	run.Sample(map[string]string{"hsm": "ImportKeyFromMnemonic(abandon x11 about), XSign path [01, empty]", "required": "same signature as in-memory derive+Sign; wrong password refused"})
+	run.Sample(map[string]string{"scalar boundary": "seed 'verif-C28-boundary-root-'||counter with root scalar top bytes fe/ff ff 5f; child N:(empty) has top byte 60 (bit 253 set)", "required": "ExpandedPrivateKey().Public() == XPub()[:32] == [s]B; Sign == RFC 8032 reference; verifies under xpub.Derive(path), also through HSM.XSign"})
 	run.Sample(map[string]string{"hsm history": "key file under P0 ; sign(k0,P0) ; reset(k0,P0->P1) ; sign(k0,P0)", "required": "accepted, accepted, refused; afterwards the file decrypts with P1 only"})
 	run.Assume("key store histories run on pseudohsm.New's HSM with only the scrypt cost parameters of its keyStorePassphrase replaced by N=2,p=1 (hooks/blockchain/pseudohsm, VerifNewWithScrypt); the fixed script of sectionHSM keeps the unmodified constructor. Two passwords and at most two keys; the 2 s reload throttle of the key cache never elapses inside a history, so directory rescans happen only at the first access of an instance")
+	run.Assume("scalar boundary cases: the head-room edge (bits 233..252 set) is the only boundary a bounded derivation can cross; seeds at the edge are found by search over a fixed counter sequence with the REFERENCE root derivation, so the set of keys does not depend on the tree under test. Keys with a scalar >= 2^255 need about 2^20 non-hardened steps from any root and break the documented precondition of GeScalarMultBase (observed: XPub() is then not [s]B and the own signature does not verify); they are enumerated but only Public() == XPub() is demanded")
 	run.Assume("crypto/hmac, crypto/sha512, crypto/aes, golang.org/x/crypto/{scrypt,pbkdf2,sha3} are trusted primitives; the Edwards25519 arithmetic of the reference is written here on math/big and anchored on RFC 8032 vectors")
 	run.Assume("all seeds / all messages / all passwords are sampled by the stated finite sets; the commutation is an algebraic identity, the enumeration exercises the clamping, carry and encoding paths that bounded paths can reach")
 	run.Assume("the password matrix runs with scrypt N=2,p=1 (EncryptKey takes the parameters as arguments); light parameters once, standard parameters once in thorough; salt and IV come from the system CSPRNG, which does not influence any verdict")
